@@ -1,7 +1,7 @@
 (** C03 - Every pipeline run terminates and runs each eligible stage exactly once. *)
-From Coq Require Import List Arith Bool.
+From Coq Require Import Lia List Arith Bool.
 Import ListNotations.
-From TaskctlV Require Import Model.Sched Proofs.SchedInv Proofs.SchedInv2 Proofs.SchedLive.
+From TaskctlV Require Import Model.Sched Proofs.SchedInv Proofs.SchedInv2 Proofs.SchedLive Proofs.SchedTerm.
 
 Theorem C03_no_stage_runs_twice : forall c es s, exec c es s -> forall i, count_occ Nat.eq_dec (starts (log s)) i <= 1.
 Proof. exact never_twice. Qed.
@@ -60,3 +60,31 @@ Definition chain3 : config := [mkStage [] false CNone; mkStage [0] false CNone; 
 Example C03_nonvacuous : exists s, exec chain3 [Visit 2; Visit 0; Visit 1; Ret 0 false; Visit 2; Visit 1; Visit 2; Exit] s
   /\ exited s = true /\ cancelled s = false /\ starts (log s) = [0].
 Proof. eexists. split; [vm_compute; reflexivity|]. repeat split; vm_compute; reflexivity. Qed.
+
+(* termination as one statement.  A ROUND is a stretch of the run that visits every stage (one full polling pass, any order,
+   anything interleaved) and at whose end no task is running - what a fair Go scheduler and terminating commands provide.
+   On an acyclic pipeline without dangling dependencies (every accepted one: C18) at most [length c] rounds exhaust the
+   Waiting stages, whatever the outcomes, and the loop's exit is then enabled: Schedule returns. *)
+Theorem C03_terminates_within_rounds : forall c, acyclic_cfg c -> wf_deps c ->
+  forall es0 s s', exec c es0 s -> (forall i, i < length c -> st s i <> Running) ->
+  rounds c s (length c) s' -> (forall i, i < length c -> st s' i <> Running) -> fatal s' = false -> exited s' = false ->
+  all_settled c (st s') = true /\ exists s'', step c s' Exit = Some s''.
+Proof. exact terminates_within_rounds. Qed.
+Print Assumptions C03_terminates_within_rounds.
+Theorem C03_waiting_shrinks_every_round : forall c, acyclic_cfg c -> wf_deps c ->
+  forall n es0 s s', exec c es0 s -> (forall i, i < length c -> st s i <> Running) -> rounds c s n s' -> nwaiting c s <= n -> nwaiting c s' = 0.
+Proof. exact rounds_exhaust_waiting. Qed.
+Print Assumptions C03_waiting_shrinks_every_round.
+(* non-vacuity: a chain 0 <- 1 <- 2: three rounds, each starting the next stage and letting it finish *)
+Definition getst (o : option state) : state := match o with Some s => s | None => init end.
+Definition rs1 := getst (run chain3 init [Visit 2; Visit 1; Visit 0; Ret 0 true]).
+Definition rs2 := getst (run chain3 rs1 [Visit 0; Visit 2; Visit 1; Ret 1 true]).
+Definition rs3 := getst (run chain3 rs2 [Visit 0; Visit 1; Visit 2; Ret 2 false]).
+Ltac three i Hi := assert (i = 0 \/ i = 1 \/ i = 2) as [->|[->| ->]] by (cbn in Hi; lia).
+Example C03_rounds_nonvacuous :
+  round chain3 init [Visit 2; Visit 1; Visit 0; Ret 0 true] rs1 /\ round chain3 rs1 [Visit 0; Visit 2; Visit 1; Ret 1 true] rs2 /\
+  round chain3 rs2 [Visit 0; Visit 1; Visit 2; Ret 2 false] rs3 /\ all_settled chain3 (st rs3) = true.
+Proof.
+  unfold round. repeat split; try (vm_compute; reflexivity);
+    try (intros i Hi; three i Hi; cbn; auto 6); try (intros i Hi; three i Hi; vm_compute; discriminate); try discriminate.
+Qed.
